@@ -55,7 +55,7 @@ class Check:
         os.makedirs(os.path.join(ROOT, "replays"), exist_ok=True)
 
     # ------------------------------------------------------------------ coq
-    def coq_stage(self, prop_files, lemma_files=()):
+    def coq_stage(self, prop_files, lemma_files=(), pre_files=()):
         """Build the development, re-check the property file(s), capture
         Print Assumptions.  Returns False when an obligation is broken."""
         ok = True
@@ -65,13 +65,31 @@ class Check:
             return True
         if not os.path.exists(os.path.join(COQ, "Makefile")):
             sh("coq_makefile -f _CoqProject -o Makefile", cwd=COQ)
-        if self.tier == "thorough" and os.environ.get("VERIF_NO_CLEAN") != "1":
-            sh("make clean", cwd=COQ, timeout=600)
         rc, out = sh("timeout 3000 make -j16", cwd=COQ, timeout=3100)
         cmds.append("make -j16 (coq_makefile, full .vo build)")
         if rc != 0:
             ok = False
             self.notes.append("coq build failed: " + out[-2000:])
+        work = COQ
+        if self.tier == "thorough" and ok and os.environ.get("VERIF_NO_CLEAN") != "1":
+            # a from-scratch build of the sources in a private copy (no stale .vo can hide anything,
+            # and concurrent checks are not disturbed); coqchk runs on that copy
+            work = self.scratch + ".coq"
+            shutil.rmtree(work, ignore_errors=True)
+            shutil.copytree(COQ, work, ignore=shutil.ignore_patterns("*.vo", "*.vok", "*.vos", "*.glob", "*.aux", ".*.aux", "Makefile", "Makefile.conf", ".Makefile.d", "*.d"))
+            sh("coq_makefile -f _CoqProject -o Makefile", cwd=work)
+            rc, out = sh("timeout 6000 make -j16", cwd=work, timeout=6100)
+            cmds.append("clean rebuild in a scratch copy: coq_makefile && make -j16")
+            if rc != 0:
+                ok = False
+                self.notes.append("clean coq build failed: " + out[-2000:])
+                work = COQ
+        self.coq_work = work
+        for pre in pre_files:      # generated files outside _CoqProject (C19)
+            rc, out = sh("timeout 900 coqc -R . RT %s" % pre, cwd=work, timeout=1000)
+            if rc != 0:
+                ok = False
+                self.notes.append("%s does not compile: %s" % (pre, out[-1500:]))
         # forbidden vernacular anywhere in the development
         bad = []
         for dp, _, fs in os.walk(COQ):
@@ -90,7 +108,7 @@ class Check:
             src = open(path).read()
             names = re.findall(r"^\s*(?:Theorem|Corollary|Lemma)\s+(\w+)", src, flags=re.M)
             examples = re.findall(r"^\s*Example\s+(\w+)", src, flags=re.M)
-            rc, out = sh("timeout 900 coqc -R . RT %s" % pf, cwd=COQ, timeout=1000)
+            rc, out = sh("timeout 900 coqc -R . RT %s" % pf, cwd=work, timeout=1000)
             cmds.append("coqc -R . RT %s" % pf)
             closed = out.count("Closed under the global context")
             axioms = re.findall(r"^Axioms:\n((?:.+\n)+)", out, flags=re.M)
@@ -115,13 +133,16 @@ class Check:
         self.coverage["theorems"] = theorems
         if self.tier == "thorough" and ok and os.environ.get("VERIF_NO_COQCHK") != "1":
             mods = " ".join("RT." + pf[:-2].replace("/", ".") for pf in prop_files)
-            rc, out = sh("timeout 2400 coqchk -silent -o -R . RT %s" % mods, cwd=COQ, timeout=2500)
+            rc, out = sh("timeout 5400 coqchk -silent -o -R . RT %s" % mods, cwd=work, timeout=5500)
             cmds.append("coqchk -silent -o -R . RT %s" % mods)
             self.coverage["coqchk"] = out[-1500:]
             if rc != 0:
                 ok = False
                 self.notes.append("coqchk failed: " + out[-1500:])
         self.checker_cmd = " && ".join(cmds)
+        if work != COQ and os.environ.get("VERIF_KEEP_COQ_COPY") != "1":
+            shutil.rmtree(work, ignore_errors=True)
+            self.coq_work = COQ
         return ok
 
     # -------------------------------------------------------------- scratch
